@@ -114,3 +114,12 @@ Theorem C14_code_selfc_new_proba : forall (K : Q) (iters : Z) (thr : Q) (p : lis
   Forall2 Qeq (snd (py_SelfCGA_get_new_proba K iters p w thr)) (selfc_new_proba K (ZtoQ iters) thr p (Z.to_nat w)).
 Proof. exact code_selfc_new_proba. Qed.
 Print Assumptions C14_code_selfc_new_proba.
+
+(* ... hence, about the source's own _get_new_proba: for any previous map, winner, K, iters and threshold in (0, 1] the returned map has one
+   entry per name, sums to 1 and is strictly positive *)
+Theorem C14_src_selfc_distribution : forall (K : Q) (iters : Z) (thr : Q) (p : list Q) (w : Z),
+  (0 <= w)%Z -> 0 < thr -> thr <= 1 -> p <> [] ->
+  let q := snd (py_SelfCGA_get_new_proba K iters p w thr) in
+  length q = length p /\ qsum q == 1 /\ Forall (fun x => 0 < x) q.
+Proof. exact src_selfc_distribution. Qed.
+Print Assumptions C14_src_selfc_distribution.
